@@ -5,11 +5,12 @@ PID = "C08"
 LEVEL = cc.LEVEL
 BUILDS = cc.BUILDS
 CASE_TIMEOUT = cc.CASE_TIMEOUT
-LEAN_MODULES = ["AsynqModel.Theorems.C08"]
+LEAN_MODULES = ["AsynqModel.Theorems.C08", "AsynqModel.Theorems.SpecC08"]
 THEOREMS = ["AsynqModel.Core." + n for n in (
     "C08_active_invariant", "C08_active", "C08_creator", "C08_frames", "C08_clean_always", "C08_clean",
     "C08_active_none_at_top_always", "C08_active_none_at_top", "C08_guard_resets", "C08_guard_step", "C08_guard_only",
-    "C08_active_always")]
+    "C08_active_always", "Spec_C08_accepts", "Spec_C08_accepts_spec", "Spec_C08_accepts_clean", "Spec_C08_accepts_partial",
+    "Spec_C08_live_source")]
 MIX = [('full',4),('sync',3),('yield_err',1),('nonasync',1)]
 RULE = ("grammar-generated task programs (profiles %s; trees and DAGs of tasks, 1-3 batch kinds with priority overrides "
         "and raising flushes, nested yield structures, errors, try/except, synchronous re-entry, contexts) interpreted on "
